@@ -102,11 +102,14 @@ Definition ex_calls : list call :=
   [mkCall (qc 8 1) (qc 6 1) 2 ex_rnd ex_produce ex_niter;
    mkCall (qc 10 1) (qc 7 1) 0 ex_rnd ex_produce (fun tr d => (1 + d)%nat);
    mkCall (qc 7 1) (qc 9 1) 1 (fun tr d i => ex_rnd (S tr) d i) ex_produce ex_niter].
+Definition returns_after (ms : list (smod Qc)) (calls : list call) : bool :=
+  match sess_init (fun m => s_other m) (mkSnet ms ex_adj tt) with
+  | Ok s0 => match sess_run f16_thr calls s0 with Ok _ => true | _ => false end
+  | _ => false
+  end.
 Example ex_session_returns :
-  (exists s0 s, sess_init (fun m => s_other m) (mkSnet ex_soft_mods ex_adj tt) = Ok s0 /\
-                sess_run f16_thr (firstn 2 ex_calls ++ [nth 2 ex_calls (mkCall 0 0 0 ex_rnd ex_produce ex_niter)]) s0 = Ok s) /\
+  returns_after ex_soft_mods ex_calls = true /\
   (* with the movable hard module of [ex_mods]: two calls with trials > 0 *)
-  (exists s0 s, sess_init (fun m => s_other m) (mkSnet ex_mods ex_adj tt) = Ok s0 /\
-                sess_run f16_thr ([nth 0 ex_calls (mkCall 0 0 0 ex_rnd ex_produce ex_niter)] ++
-                                  [nth 2 ex_calls (mkCall 0 0 0 ex_rnd ex_produce ex_niter)]) s0 = Ok s).
-Proof. split; vm_compute; eexists; eexists; split; reflexivity. Qed.
+  returns_after ex_mods [nth 0 ex_calls (mkCall 0 0 0 ex_rnd ex_produce ex_niter);
+                         nth 2 ex_calls (mkCall 0 0 0 ex_rnd ex_produce ex_niter)] = true.
+Proof. split; vm_compute; reflexivity. Qed.
